@@ -595,13 +595,21 @@ def run_predform_case(p):
 
 def run_case(p):
     """returns None if the real engine agrees with the reference, else a description of the disagreement."""
+    O.NOLIT[0] = bool(p.get('nolit'))
+    try:
+        return _run_case(p)
+    finally:
+        O.NOLIT[0] = False
+
+
+def _run_case(p):
     if p.get('kind') == 'predform':
         return run_predform_case(p)
     if p.get('kind') == 'lazy':
         return run_lazy_case(p)
     for k, f in (('forall', 'run_forall_case'), ('concat', 'run_concat_case'), ('rewrite', 'run_rewrite_case'),
                  ('registry', 'run_registry_case'), ('infer', 'run_infer_case'), ('rdr', 'run_rdr_case'), ('rdrtree', 'run_rdrtree_case'),
-                 ('flatten_elem', 'run_flatten_elem_case')):
+                 ('flatten_elem', 'run_flatten_elem_case'), ('chain3', 'run_chain3_case')):
         if p.get('kind') == k:
             return globals()[f](p)
     if p.get('kind') == 'reuse':
@@ -893,6 +901,55 @@ def run_concat_case(p):
     return None
 
 
+def run_chain3_case(p):
+    """C18: chains of three conditions over two variables: every association and order of or_ / and_ (and mixed nestings)
+    gives the reference result set; conditions are literal-free by default so that the operators' result caches are hit"""
+    from entity_query_language import symbolic_mode, let, an, set_of, and_, or_
+    import itertools
+    rng = random.Random(p['seed'])
+    seeds = [rng.randrange(10 ** 6) for _ in range(3)]
+    conds = [O.gen_cond(random.Random(z), 2, 1, vocab=('cmp', 'name'), neg=False) for z in seeds]
+    op = rng.choice(['or', 'and', 'mixed'])
+    r0 = random.Random(p['seed'] + 5)
+    protos = [O.make_domain(r0, 3), O.make_domain(r0, 3)]
+
+    def sem(a, b):
+        va = [O.holds(c, {0: a, 1: b}) for c in conds]
+        if op == 'or':
+            return any(va)
+        if op == 'and':
+            return all(va)
+        return (va[0] and va[1]) or va[2]
+    want = sorted((i, j) for i, a in enumerate(protos[0]) for j, b in enumerate(protos[1]) if sem(a, b))
+    spellings = []
+    if op in ('or', 'and'):
+        f = or_ if op == 'or' else and_
+        for perm in itertools.permutations(range(3)):
+            spellings.append(('flat%s' % (perm,), lambda cs, perm=perm: f(*[cs[i] for i in perm])))
+            spellings.append(('left%s' % (perm,), lambda cs, perm=perm: f(f(cs[perm[0]], cs[perm[1]]), cs[perm[2]])))
+            spellings.append(('right%s' % (perm,), lambda cs, perm=perm: f(cs[perm[0]], f(cs[perm[1]], cs[perm[2]]))))
+    else:
+        spellings = [('(a&b)|c', lambda cs: or_(and_(cs[0], cs[1]), cs[2])), ('c|(a&b)', lambda cs: or_(cs[2], and_(cs[0], cs[1]))),
+                     ('(b&a)|c', lambda cs: or_(and_(cs[1], cs[0]), cs[2])), ('c|(b&a)', lambda cs: or_(cs[2], and_(cs[1], cs[0])))]
+    rng.shuffle(spellings)
+    for name, mk in spellings[:p.get('spellings', 6)]:
+        O.reset_registry()
+        r1 = random.Random(p['seed'] + 5)
+        d0, d1 = O.make_domain(r1, 3), O.make_domain(r1, 3)
+        try:
+            with symbolic_mode():
+                x = let(type_=O.Item, domain=d0)
+                y = let(type_=O.Item, domain=d1)
+                q = an(set_of([x, y], mk([O.build(c, [x, y]) for c in conds])))
+            for _ in range(2):
+                got = sorted((d0.index(r[x]), d1.index(r[y])) for r in q.evaluate())
+                if got != want:
+                    return {'operator': op, 'spelling': name, 'conditions': repr(conds), 'got': got, 'want': want, 'signature_kind': op}
+        except Exception as e:  # noqa
+            return {'operator': op, 'spelling': name, 'exception': repr(e), 'trace': traceback.format_exc(limit=4), 'signature_kind': op + ':exception'}
+    return None
+
+
 def run_rewrite_case(p):
     """C18: meaning-preserving rewrites leave the result set unchanged"""
     from entity_query_language import symbolic_mode, let, an, entity, set_of, and_, or_, contains, in_
@@ -1052,15 +1109,19 @@ def run_infer_case(p):
     from entity_query_language import symbolic_mode, rule_mode, let, an, entity, infer, and_
     O.reset_registry()
     rng = random.Random(p['seed'])
-    d0, d1 = O.make_domain(rng, 3), O.make_domain(rng, 3)
+    d0, d1 = O.make_domain(rng, 3, falsy=p.get('falsy', True)), O.make_domain(rng, 3, falsy=p.get('falsy', True))
     cond = O.gen_cond(rng, 2, p.get('depth', 2), vocab=('cmp', 'name'), neg=p.get('neg', True))
     if len(O.vars_of(cond)) < 2:
         cond = ('and', cond, ('cmp', rng.choice(['le', 'ne', 'gt']), ('attr', 0, 'size'), ('attr', 1, 'size')))
     # the head mentions every variable of the rule (the property's precondition): a = x, b = y or an attribute of y, and a
     # constant in the third field.  Nested constructor arguments are not generated: whether a nested T2(...) in a head is
     # constructed or matched against existing instances is not settled by the property (see DESIGN.md, observations).
-    b_kind = rng.choice(['var', 'attr'])
+    b_kind = rng.choice(['var', 'attr', 'attr', 'lookup'])
     a_kind = 'var'
+    if b_kind == 'lookup':
+        # the second head argument is a nested quantified expression the body does not bind (it ranges over its own
+        # domain d1): one instance per satisfying binding of x and per value of the nested expression
+        cond = O.gen_cond(rng, 1, p.get('depth', 2), vocab=('cmp', 'name'), neg=p.get('neg', True))
     const = rng.choice(CONST_POOL)
     tag = rng.choice(CONST_POOL)
     T = rng.choice([O.Built, O.BuiltB, O.BuiltEmpty, O.BuiltEq])
@@ -1069,11 +1130,14 @@ def run_infer_case(p):
             x = let(type_=O.Item, domain=d0)
             y = let(type_=O.Item, domain=d1)
             a_arg = x if a_kind == 'var' else O.BuiltC(a=x, tag='inner')
-            b_arg = y if b_kind == 'var' else (y.name if b_kind == 'attr' else const)
+            b_arg = y if b_kind == 'var' else (y.name if b_kind == 'attr' else (an(entity(y)) if b_kind == 'lookup' else const))
             head = T(a=a_arg, b=b_arg, tag=tag)
-            q = infer(entity(head, O.build(cond, [x, y])))
+            q = infer(entity(head, O.build(cond, [x, y] if b_kind != 'lookup' else [x])))
         got = list(q.evaluate())
-        sat = [(a, b) for a in d0 for b in d1 if O.holds(cond, {0: a, 1: b})]
+        if b_kind == 'lookup':
+            sat = [(a, b) for a in d0 if O.holds(cond, {0: a}) for b in d1]
+        else:
+            sat = [(a, b) for a in d0 for b in d1 if O.holds(cond, {0: a, 1: b})]
     except Exception as e:  # noqa
         return {'exception': repr(e), 'trace': traceback.format_exc(limit=5), 'signature_kind': 'exception',
                 'head': (a_kind, b_kind, repr(const), repr(tag), T.__name__), 'condition': repr(cond)}
@@ -1088,10 +1152,10 @@ def run_infer_case(p):
         return ('nested', type(g.a).__name__, id(getattr(g.a, 'a', None)), getattr(g.a, 'tag', None))
 
     def key_b(v):
-        return ('id', id(v)) if b_kind in ('var', 'const') else ('val', v)
+        return ('id', id(v)) if b_kind in ('var', 'const', 'lookup') else ('val', v)
     gk = sorted((key_a(g), key_b(g.b), id(g.tag)) for g in got)
     wk = sorted(((('obj', id(a)) if a_kind == 'var' else ('nested', 'BuiltC', id(a), 'inner')),
-                 key_b(b if b_kind == 'var' else (b.name if b_kind == 'attr' else const)), id(tag)) for a, b in sat)
+                 key_b(b if b_kind in ('var', 'lookup') else (b.name if b_kind == 'attr' else const)), id(tag)) for a, b in sat)
     if gk != wk:
         return dict(info, built=len(got), want=len(sat), signature_kind='instances',
                     sample=repr([(getattr(g.a, 'name', g.a), g.b, g.tag) for g in got[:3]]))
